@@ -112,14 +112,21 @@ type diffCase struct {
 	Texts  []string
 	Doc    string
 	UseNum bool
+	Share  bool // evaluate on the maximally shared form of the document (equal sub-containers are ONE map / slice)
 }
 
 func (d *diffCase) key() string {
+	if d.Share {
+		return fmt.Sprintf("%s\x00%s\x00%v shared", d.Text, d.Doc, d.UseNum)
+	}
 	return fmt.Sprintf("%s\x00%s\x00%v", d.Text, d.Doc, d.UseNum)
 }
 
 func (d *diffCase) detail(extra map[string]interface{}) map[string]interface{} {
 	m := map[string]interface{}{"path": d.Text, "document": d.Doc, "use_number": d.UseNum}
+	if d.Share {
+		m["document_form"] = "equal sub-containers of the document are one shared map / slice (lib.HashCons)"
+	}
 	for k, v := range extra {
 		m[k] = v
 	}
@@ -136,6 +143,9 @@ type diffObs struct {
 
 func (d *diffCase) observe(fs lib.FuncSet) diffObs {
 	src := lib.Decode(d.Doc, d.UseNum)
+	if d.Share {
+		src, _ = lib.HashCons(src)
+	}
 	var o diffObs
 	o.Lib = lib.Retrieve(d.Text, src, fs.Config(false))
 	o.After = lib.JS(src)
@@ -274,6 +284,7 @@ func randomCase(r *rand.Rand, g *gen.Gen, spelled bool) *diffCase {
 	}
 	d.Doc = lib.JS(doc)
 	d.UseNum = r.Intn(2) == 0
+	d.Share = r.Intn(8) == 0
 	if spelled {
 		d.Text, d.Texts = d.P.Render(gen.RandomSpelling(r))
 	} else {
